@@ -914,7 +914,7 @@ def run(ctx):
     # (ii) the three files of real mapping runs (hierarchical, flattened, with a dropped level): the HDF5 output read
     # back and the CSV tell the JSON's story, the embedded taxonomy is the stored taxonomy without its cells
     from harness import mapcheck
-    mapcheck.run_batch(ctx, ctx.n(12, 150), ('c15-',), 'files', max_levels=4)
+    mapcheck.run_batch(ctx, ctx.n(14, 150), ('c15-',), 'files', max_levels=4)
 
 
 def replay(ctx, rec):
